@@ -1,6 +1,7 @@
 import OV.Model.C13Export
 import OV.Lemmas.C13
 import OV.Lemmas.C13Roundtrip
+import OV.Lemmas.C13Types
 import Std.Data.String.ToInt
 /-!
 # C13 — ONNX → Python (`proto2python`) → ONNX round-trips to an equivalent model
@@ -487,5 +488,53 @@ theorem default_opset_arg_spec (o : Opts) (opsets : List (String × Nat)) :
         have := congrArg String.toList h
         simp [String.toList_append] at this
       | none => simp
+
+/-! ## type annotations -/
+open OV.C13T in
+/-- **`type_annotation_roundtrip`**: for every tensor type — every element type that has a class in `onnx_types`, every
+shape: unknown rank, rank 0, any rank with static sizes (0 included), symbolic and unknown dimensions — the annotation
+`onnx_type_to_onnxscript_repr` prints evaluates (`__class_getitem__`, Python's one-item subscript is not a tuple,
+`X[None]` is `(None,)`) and converts back (`to_type_proto`) to the same type. -/
+theorem type_annotation_roundtrip (t : OV.C13T.TType) (a : OV.C13T.Ann) (h : OV.C13T.toAnn t = some a) :
+    OV.C13T.evalAnn a = some t := by
+  unfold toAnn at h
+  cases hn : dtypeTable.lookup t.dtype with
+  | none => rw [hn] at h; cases h
+  | some name =>
+    rw [hn] at h
+    have hc := class_of_name _ (lookup_mem _ _ _ hn)
+    simp only at hc
+    obtain ⟨dt, sh⟩ := t
+    simp only at hn hc h
+    cases sh with
+    | none =>
+      simp only [Option.some.injEq] at h; subst h
+      simp only [evalAnn, hc, Option.map_some, toTypeProtoShape]
+    | some ds =>
+      cases ds with
+      | nil =>
+        simp only [Option.some.injEq] at h; subst h
+        simp only [evalAnn, hc, Option.map_some, toTypeProtoShape]
+      | cons d rest =>
+        simp only [Option.some.injEq] at h; subst h
+        simp only [evalAnn, hc, Option.map_some, shape_of_classGetitem (d :: rest) (by simp)]
+
+open OV.C13T in
+/-- every element type of the class table is printed (the hypothesis of the theorem is satisfiable for all 26) -/
+theorem type_annotation_total : ∀ p ∈ dtypeTable, ∀ sh, (toAnn ⟨p.1, sh⟩).isSome = true := by
+  intro p hp sh
+  have : dtypeTable.lookup p.1 = some p.2 := by revert p; decide
+  unfold toAnn
+  simp only [this]
+  cases sh with
+  | none => rfl
+  | some ds => cases ds <;> rfl
+
+open OV.C13T in
+example : (toAnn ⟨1, some [.val 0]⟩).bind evalAnn = some ⟨1, some [.val 0]⟩
+    ∧ (toAnn ⟨1, some [.val 0]⟩).map renderAnn = some "FLOAT[0]"
+    ∧ (toAnn ⟨7, some [.sym "N", .val 3, .unk]⟩).map renderAnn = some "INT64['N',3,None]"
+    ∧ (toAnn ⟨9, some []⟩).map renderAnn = some "BOOL" ∧ (toAnn ⟨11, none⟩).map renderAnn = some "DOUBLE[...]" := by
+  decide
 
 end OV.Props.C13
